@@ -414,3 +414,155 @@ Example C11_ex_padding_state :
   snd (toy_dec 1 2 s) = [true; false; false] /\ length (snd (toy_dec 1 2 s)) = length (fst (toy_dec 1 2 s)).
 Proof. exact toy_padding_state. Qed.
 (* the log-domain hypotheses of C11_ppo_ratio_one / C11_ll_is_log_of_product are satisfiable: both instances above *)
+
+From RL4CO Require Import Decoding.Entropy Decoding.DecodeLoopEntropy Decoding.DecodeLoopFuel.
+
+(* ================================================================ additions (mutation sweep 2)
+   outdict["entropy"]: the VALUE.  out_entropyK lg cr = the model's calculate_entropy(logprobs) of the returned row cr with the log
+   domain (K, 0, +) and the term nplp lg p = 0 if p = 0 else - p * lg p (Decoding/Entropy.v); row_vecs mse c acts = the masked
+   normalised step distributions along the row's own returned actions (forced multistart step excluded). *)
+(* store_all_logp passes: entropy of a returned row = sum over its decoding steps of -sum_a p_a lg p_a of the step distribution in the state reached by its previous returned actions; the forced multistart step contributes 0 *)
+Theorem C11_entropy_is_sum_of_step_entropies :
+  forall (K : ofield) (L : Type) (lleb : L -> L -> bool) (e : L -> K) (clip tmp : L -> L) 
+    (top_p : K) (top_k : nat) (mask_logits : bool) (E : Env) (Hd : Type)
+    (dec : Hd -> inst E -> st E -> list L * list bool) (rew : inst E -> st E -> list nat -> Z) 
+    (lg : K -> K),
+  lg f1 = f0 ->
+  forall (m : mode) (ms : bool) (S : nat) (sb : bool) (fuel : nat) (cfgs : list (Hd * inst E))
+    (starts : list nat) (ors : list (list nat)) (outs : list (brow K E Hd)),
+  forward K L lleb e clip tmp top_p top_k mask_logits E Hd dec rew m true ms S sb fuel cfgs starts ors =
+  Some outs ->
+  forall cr : brow K E Hd,
+  In cr outs ->
+  out_entropyK K E Hd lg cr =
+  entropy_steps lg
+    (row_vecs K L lleb e clip tmp top_p top_k mask_logits E Hd dec (ms_eff ms S) (fst cr) (r_acts (snd cr))).
+Proof. exact forward_entropy_is_sum. Qed.
+Print Assumptions C11_entropy_is_sum_of_step_entropies.
+
+(* ... non-negative whenever the decoder hands over, in every state, a mask with a feasible action and as many logits *)
+Theorem C11_entropy_nonneg :
+  forall (K : ofield) (L : Type) (lleb : L -> L -> bool) (e : L -> K) (clip tmp : L -> L) 
+    (top_p : K) (top_k : nat) (mask_logits : bool) (E : Env) (Hd : Type)
+    (dec : Hd -> inst E -> st E -> list L * list bool) (rew : inst E -> st E -> list nat -> Z) 
+    (lg : K -> K),
+  lg f1 = f0 ->
+  (forall x y : K, flt f0 x -> flt x y -> flt (lg x) (lg y)) ->
+  (forall x : L, flt f0 (e x)) ->
+  (forall x y : L, lleb x y = (e x <=? e y)%of) ->
+  (forall (h : Hd) (i : inst E) (s : st E), pl_wf L (eff_mask L mask_logits (dec h i s)) (fst (dec h i s))) ->
+  forall (m : mode) (ms : bool) (S : nat) (sb : bool) (fuel : nat) (cfgs : list (Hd * inst E))
+    (starts : list nat) (ors : list (list nat)) (outs : list (brow K E Hd)),
+  forward K L lleb e clip tmp top_p top_k mask_logits E Hd dec rew m true ms S sb fuel cfgs starts ors =
+  Some outs -> forall cr : brow K E Hd, In cr outs -> fle f0 (out_entropyK K E Hd lg cr).
+Proof. exact forward_entropy_nonneg. Qed.
+Print Assumptions C11_entropy_nonneg.
+
+(* ... zero iff every step distribution along the row is a point mass *)
+Theorem C11_entropy_zero_iff :
+  forall (K : ofield) (L : Type) (lleb : L -> L -> bool) (e : L -> K) (clip tmp : L -> L) 
+    (top_p : K) (top_k : nat) (mask_logits : bool) (E : Env) (Hd : Type)
+    (dec : Hd -> inst E -> st E -> list L * list bool) (lg : K -> K),
+  lg f1 = f0 ->
+  (forall x y : K, flt f0 x -> flt x y -> flt (lg x) (lg y)) ->
+  (forall x : L, flt f0 (e x)) ->
+  (forall x y : L, lleb x y = (e x <=? e y)%of) ->
+  (forall (h : Hd) (i : inst E) (s : st E), pl_wf L (eff_mask L mask_logits (dec h i s)) (fst (dec h i s))) ->
+  forall (mse : bool) (cr : brow K E Hd),
+  Inv K L lleb e clip tmp top_p top_k mask_logits E Hd dec true mse cr ->
+  out_entropyK K E Hd lg cr = f0 <->
+  (forall v : list K,
+   In v (row_vecs K L lleb e clip tmp top_p top_k mask_logits E Hd dec mse (fst cr) (r_acts (snd cr))) ->
+   point_mass v).
+Proof. exact out_entropy_zero_iff. Qed.
+Print Assumptions C11_entropy_zero_iff.
+
+(* the step budget: `step += 1; if step > max_steps: break` -- the model's fuel is max_steps + 1 *)
+(* if every row is done after n rounds, every budget >= n gives the same rows: with max_steps + 1 >= the episode's step bound (C02) the result of the loop does not depend on max_steps *)
+Theorem C11_loop_fuel_independent :
+  forall (K : ofield) (L : Type) (lleb : L -> L -> bool) (e : L -> K) (clip tmp : L -> L) 
+    (top_p : K) (top_k : nat) (mask_logits : bool) (E : Env) (Hd : Type)
+    (dec : Hd -> inst E -> st E -> list L * list bool) (m : mode) (sa : bool) (fuel fuel' k : nat)
+    (rows : list (brow K E Hd)) (n : nat),
+  n <= fuel ->
+  n <= fuel' ->
+  forallb (row_done K E Hd) (after K L lleb e clip tmp top_p top_k mask_logits E Hd dec m sa n k rows) = true ->
+  loop K L lleb e clip tmp top_p top_k mask_logits E Hd dec m sa fuel k rows =
+  loop K L lleb e clip tmp top_p top_k mask_logits E Hd dec m sa fuel' k rows.
+Proof. exact loop_fuel_independent. Qed.
+Print Assumptions C11_loop_fuel_independent.
+
+(* the same for the whole pass (post_decoder_hook and select_best included) *)
+Theorem C11_forward_fuel_independent :
+  forall (K : ofield) (L : Type) (lleb : L -> L -> bool) (e : L -> K) (clip tmp : L -> L) 
+    (top_p : K) (top_k : nat) (mask_logits : bool) (E : Env) (Hd : Type)
+    (dec : Hd -> inst E -> st E -> list L * list bool) (rew : inst E -> st E -> list nat -> Z) 
+    (m : mode) (sa ms : bool) (S : nat) (sb : bool) (fuel fuel' : nat) (cfgs : list (Hd * inst E))
+    (starts : list nat) (ors : list (list nat)) (n : nat),
+  n <= fuel ->
+  n <= fuel' ->
+  forallb (row_done K E Hd)
+    (after K L lleb e clip tmp top_p top_k mask_logits E Hd dec m sa n 0
+       (pre_hook K E Hd sa ms S cfgs starts ors)) = true ->
+  forward K L lleb e clip tmp top_p top_k mask_logits E Hd dec rew m sa ms S sb fuel cfgs starts ors =
+  forward K L lleb e clip tmp top_p top_k mask_logits E Hd dec rew m sa ms S sb fuel' cfgs starts ors.
+Proof. exact forward_fuel_independent. Qed.
+Print Assumptions C11_forward_fuel_independent.
+
+(* ... and for "nothing raises" *)
+Theorem C11_forward_ok_fuel_independent :
+  forall (K : ofield) (L : Type) (lleb : L -> L -> bool) (e : L -> K) (clip tmp : L -> L) 
+    (top_p : K) (top_k : nat) (mask_logits : bool) (E : Env) (Hd : Type)
+    (dec : Hd -> inst E -> st E -> list L * list bool) (m : mode) (sa ms : bool) (S fuel fuel' : nat)
+    (cfgs : list (Hd * inst E)) (starts : list nat) (ors : list (list nat)) (n : nat),
+  n <= fuel ->
+  n <= fuel' ->
+  forallb (row_done K E Hd)
+    (after K L lleb e clip tmp top_p top_k mask_logits E Hd dec m sa n 0
+       (pre_hook K E Hd sa ms S cfgs starts ors)) = true ->
+  forward_ok K L lleb e clip tmp top_p top_k mask_logits E Hd dec m sa ms S fuel cfgs starts ors =
+  forward_ok K L lleb e clip tmp top_p top_k mask_logits E Hd dec m sa ms S fuel' cfgs starts ors.
+Proof. exact forward_ok_fuel_independent. Qed.
+Print Assumptions C11_forward_ok_fuel_independent.
+
+Theorem C11_forward_fuel_exhausted :
+  forall (K : ofield) (L : Type) (lleb : L -> L -> bool) (e : L -> K) (clip tmp : L -> L) 
+    (top_p : K) (top_k : nat) (mask_logits : bool) (E : Env) (Hd : Type)
+    (dec : Hd -> inst E -> st E -> list L * list bool) (rew : inst E -> st E -> list nat -> Z) 
+    (m : mode) (sa ms : bool) (S : nat) (sb : bool) (fuel : nat) (cfgs : list (Hd * inst E)) 
+    (starts : list nat) (ors : list (list nat)),
+  (forall j : nat,
+   j < fuel ->
+   forallb (row_done K E Hd)
+     (after K L lleb e clip tmp top_p top_k mask_logits E Hd dec m sa j 0
+        (pre_hook K E Hd sa ms S cfgs starts ors)) = false) ->
+  forward K L lleb e clip tmp top_p top_k mask_logits E Hd dec rew m sa ms S sb fuel cfgs starts ors =
+  post_hook K E Hd rew S sb
+    (after K L lleb e clip tmp top_p top_k mask_logits E Hd dec m sa fuel 0
+       (pre_hook K E Hd sa ms S cfgs starts ors)).
+Proof. exact forward_fuel_exhausted. Qed.
+Print Assumptions C11_forward_fuel_exhausted.
+
+(* `if self.num_starts > 0 and self.select_best`: without replicas (num_starts = 0) select_best=True is ignored *)
+Theorem C11_select_best_without_replicas :
+  forall (K : ofield) (L : Type) (lleb : L -> L -> bool) (e : L -> K) (clip tmp : L -> L) 
+    (top_p : K) (top_k : nat) (mask_logits : bool) (E : Env) (Hd : Type)
+    (dec : Hd -> inst E -> st E -> list L * list bool) (rew : inst E -> st E -> list nat -> Z) 
+    (m : mode) (sa ms sb : bool) (fuel : nat) (cfgs : list (Hd * inst E)) (starts : list nat)
+    (ors : list (list nat)),
+  forward K L lleb e clip tmp top_p top_k mask_logits E Hd dec rew m sa ms 0 sb fuel cfgs starts ors =
+  forward K L lleb e clip tmp top_p top_k mask_logits E Hd dec rew m sa ms 0 false fuel cfgs starts ors.
+Proof. exact forward_select_best_without_replicas. Qed.
+Print Assumptions C11_select_best_without_replicas.
+
+(* non-vacuity on the toy environment of Decoding/DecodeLoopInst.v (instances with 2 and 3 customers: 3 decoder steps):
+   fuel 3 (max_steps = 2: the budget is exactly the episode) and fuel 20 return the same rows; fuel 2 (max_steps = 1) truncates;
+   select_best=True without replicas returns the plain rollout *)
+Example C11_ex_fuel :
+  tviews (tfwd Greedy false false 0 false 3 [(1%Z, 2%nat); (2%Z, 3%nat)] [] [[]; []])
+  = tviews (tfwd Greedy false false 0 false 20 [(1%Z, 2%nat); (2%Z, 3%nat)] [] [[]; []]) /\
+  tviews (tfwd Greedy false false 0 false 2 [(1%Z, 2%nat); (2%Z, 3%nat)] [] [[]; []])
+  = Some [([2; 1]%nat, [2 # 3; 1]%Q); ([1; 2]%nat, [8 # 11; 4 # 5]%Q)] /\
+  tviews (tfwd Greedy false false 0 true 20 [(1%Z, 2%nat); (2%Z, 3%nat)] [] [[]; []])
+  = tviews (tfwd Greedy false false 0 false 20 [(1%Z, 2%nat); (2%Z, 3%nat)] [] [[]; []]).
+Proof. vm_compute. repeat split. Qed.
